@@ -167,7 +167,9 @@ def c13_jobs(tier, seed):
     L = 5 if q else 6
     j = []
     for st in ("local", "shm"):
-        j += [Job("dbg", "w_cal", "c13 --part seq --storage %s --len %d --nshards 2 --shard %d" % (st, L, i), timeout=1200, engine="exhaustive-histories") for i in range(2)]
+        # one process per slice of the box: handles leaked on behalf of dead peers keep their descriptors
+        ns = 4 if q else 24
+        j += [Job("dbg", "w_cal", "c13 --part seq --storage %s --len %d --nshards %d --shard %d" % (st, L, ns, i), timeout=1200, engine="exhaustive-histories") for i in range(ns)]
         j += shards("dbg", "w_cal", "c13 --part conc --storage %s" % st, 3 if q else 4, s, seed, first=10 if st == "shm" else 0)
     j += shards("rel", "w_cal", "c13 --part conc --storage local", 2, s, seed, first=30)
     j += shards("tsan", "w_cal", "c13 --part conc --storage local --d1 100 --d2 10 --rand 10", 2, s, seed, first=40)
